@@ -433,7 +433,7 @@ def one(ctx, rng, ninputs):
 
 def plan(tier, seed):
     quick = tier == "quick"
-    return {"nshards": 16, "params": {"soft_s": 1500 if quick else 5400, "nprograms": 40 if quick else 450, "ninputs": 6 if quick else 12}, "hard_timeout_s": 2700 if quick else 9000}
+    return {"nshards": 16, "params": {"soft_s": 1500 if quick else 5400, "nprograms": 40 if quick else 160, "ninputs": 6 if quick else 10}, "hard_timeout_s": 2700 if quick else 9000}
 
 
 def shard(ctx):
